@@ -551,7 +551,7 @@ def r6(m, run):
             run.check(flags == {("bool", False)}, "R6", "audio key-flag", "audio samples carry no sync flag", "audio key flag is %s" % sorted(flags))
             aac = [d for d in datas if "adts_to_raw" in L.show(d)]
             raw = [d for d in datas if d == ("param", "data")]
-            good = len(aac) == 1 and ("param", "data") in _walk(aac[0]) and not [x for x in _walk(aac[0]) if x[:1] == ("call",) and "adts_to_raw" not in x[1]]
+            good = len(aac) == 1 and _is_adts_payload(aac[0])
             run.check(good, "R6", "audio payload Aac", L.show(aac[0])[:120] if aac else "?", "AAC payload is not the ADTS validator's slice of the submitted frame: %s" % [L.show(d)[:80] for d in datas])
             run.check(len(raw) == 1 and len(datas) == 2, "R6", "audio payload Opus", "verbatim", "Opus payload is not the submitted packet verbatim: %s" % [L.show(d)[:80] for d in datas])
             continue
@@ -584,10 +584,24 @@ def r6(m, run):
             run.check(good, "R6", "audio key-flag", "audio samples carry no sync flag", "audio key flag is %s" % L.show(f["is_keyframe"]))
             arms = dict((p.split("::")[-1], v) for p, v in data[2]) if data[0] == "matchv" else {}
             a = arms.get("Aac")
-            good = a is not None and "adts_to_raw" in L.show(a) and ("param", "data") in _walk(a)
+            good = a is not None and _is_adts_payload(a)
             run.check(good, "R6", "audio payload Aac", L.show(a)[:120] if a else "?", "AAC payload is not the ADTS validator's slice of the submitted frame: %s" % (L.show(a) if a else "missing"))
             o = arms.get("Opus")
             run.check(o == ("param", "data"), "R6", "audio payload Opus", "verbatim", "Opus payload is %s" % (L.show(o) if o else "missing"))
+
+
+def _is_adts_payload(v):
+    """exactly `adts_to_raw(data)` (success value), possibly copied: no further slicing, trimming or concatenation"""
+    while True:
+        if v[0] in ("unwrapped", "okval"):
+            v = v[1]
+        elif v[0] == "mcall" and v[1].split("::")[-1] in ("to_vec", "to_owned", "clone", "into", "map_err") and not [a for a in v[3] if a[0] not in ("closure", "lambda", "lambdav", "def", "ctor")]:
+            v = v[2]
+        elif v[0] == "cast":
+            v = v[2]
+        else:
+            break
+    return v[0] == "call" and v[1].split("::")[-1] == "adts_to_raw" and tuple(v[2]) == (("param", "data"),)
 
 
 def _walk(x):
